@@ -71,3 +71,18 @@ Theorem C05_code_handle_tie : forall flt tok c f url,
 Proof. exact EquivStatic.handle_tie. Qed.
 Print Assumptions C05_code_handle_tie.
 
+(* ---- tie to the code (server/config.py get_certificate_auth_config: the rules enforced are the rules written in the configuration): theorems of coq/Equiv/EquivWiring.v (statements there), re-checked against the definitions
+   regenerated from /repo's working tree; see DESIGN.md 11.8 ---- *)
+From NV Require Equiv.EquivWiring.
+Theorem C05_code_certificate_auth_config_tie : ltac:(let t := type of @EquivWiring.certificate_auth_config_tie in exact t).
+Proof. exact (@EquivWiring.certificate_auth_config_tie). Qed.
+Print Assumptions C05_code_certificate_auth_config_tie.
+
+Theorem C05_code_certificate_auth_config_model : ltac:(let t := type of @EquivWiring.certificate_auth_config_model in exact t).
+Proof. exact (@EquivWiring.certificate_auth_config_model). Qed.
+Print Assumptions C05_code_certificate_auth_config_model.
+
+Theorem C05_code_cli_wiring : ltac:(let t := type of @EquivWiring.cli_wiring in exact t).
+Proof. exact (@EquivWiring.cli_wiring). Qed.
+Print Assumptions C05_code_cli_wiring.
+
